@@ -169,6 +169,7 @@ func genRuntime(t *rapid.T) Case {
 		c.DefaultMT = rapid.SampledFrom(foreign).Draw(t, "defmt")
 	}
 	c.RtClient = rapid.SampledFrom([]string{"transport", "transport", "client"}).Draw(t, "rtclient")
+	c.Debug = rapid.IntRange(0, 3).Draw(t, "debug") == 0
 	c.RtCtx = rapid.SampledFrom([]string{"live", "live", "live", "nil", "cancelled", "expired", "soon", "soon"}).Draw(t, "rtctx")
 	return c
 }
@@ -230,6 +231,9 @@ func Classify(c Case) (bool, []string) {
 		lab["default media type unregistered"] = true
 	}
 	lab["runtime-level client: "+c.RtClient] = true
+	if c.Debug {
+		lab["debug mode"] = true
+	}
 	lab["runtime-level context: "+c.RtCtx] = true
 	for i := range c.Calls {
 		call := &c.Calls[i]
